@@ -9,6 +9,6 @@ git -C /repo ls-files -z | (cd /repo && xargs -0 cp --parents -t $w)
 res=""
 (cd $w && go build ./... >/dev/null 2>&1) && res="$res build=ok" || res="$res build=FAIL"
 (cd $w && go test -vet=off -count=1 ./... >/dev/null 2>&1) && res="$res suite=pass" || res="$res suite=FAIL"
-alarms=$(bin/rsa matrix --repo $w 2>$w.err | awk '$2>0 {printf "%s(%s) ", $1, $3}')
+alarms=$(${RSA:-bin/rsa} matrix --repo $w 2>$w.err | awk '$2>0 {printf "%s(%s) ", $1, $3}')
 rm -rf $w $w.err
 echo "REFACTOR $d:$res alarms: ${alarms:-none}"
